@@ -79,7 +79,12 @@ theorem serial_exactly_one (w : TaskState) (hw : w.isCompleted = true) (s0 : Tas
   rw [hfirst]
   exact this
 
-/-- W: the model-level reason the last clause cannot hold for the code as it is — without a lock the interleaving
+/-- K1 (`Process::do_action` read from the source on this run): the guard and the effect of one client action are one critical section
+of the process — the lock is taken unconditionally, bound to a name, before the task is looked up, for every action kind. This is the
+hypothesis "serial" of `serial_exactly_one`; without it `interleaved_two_succeed` applies. -/
+theorem actions_serialised : actionSerialised = true := by decide
+
+/-- W: the model-level reason the clause needs the lock (the defect repaired by `089e2ab`) — without it the interleaving
 guard₁ guard₂ effect₁ effect₂ accepts both clients -/
 theorem interleaved_two_succeed :
     (raceRun .completed ⟨.interrupt, [], []⟩ [.guard 1, .guard 2, .effect 1, .effect 2]).accepted = [2, 1] := by decide
